@@ -45,7 +45,7 @@ func vrtSameSeries(a, b *wt.TimeSeries, what string) {
 
 // VerifC12_View: view (the source side of diff and copy) through the URL equals the local read.
 func VerifC12_View() {
-	h := vrtCmdHeader(vrtCmdLayouts(), wt.Sum, 0.5)
+	h := vrtCmdHeader(vrtCmdLayoutsWide(), wt.Sum, 0.5)
 	na := len(h.ArchiveInfoList())
 	now := vrtCmdInstant(h, "now")
 	vrtCmdAssumeClock(h, now)
@@ -89,7 +89,7 @@ func VerifC12_View() {
 
 // VerifC12_Raw: view-raw through the URL equals the local raw dump.
 func VerifC12_Raw() {
-	h := vrtCmdHeader(vrtCmdLayouts(), wt.Sum, 0.5)
+	h := vrtCmdHeader(vrtCmdLayoutsWide(), wt.Sum, 0.5)
 	na := len(h.ArchiveInfoList())
 	now := vrtCmdInstant(h, "now")
 	vrtCmdAssumeClock(h, now)
@@ -200,5 +200,56 @@ func VerifC12_NotExist() {
 		vrt.Assert(os.IsNotExist(lerr), "C12.notexist local view-raw reports a missing file as not existing")
 		vrt.Assert(os.IsNotExist(rerr), "C12.notexist remote view-raw reports a missing file as not existing")
 		vrt.KnownOff("C12-viewraw-notexist")
+	}
+}
+
+func vrtSameStrings(a, b []string, what string) {
+	vrt.Assert(len(a) == len(b), what+": same number of entries")
+	for i := range a {
+		if i < len(b) {
+			vrt.Assert(a[i] == b[i], what+": same entry")
+		}
+	}
+}
+
+// VerifC12_Glob: file and item globbing through the URL lists what the directory lists, in the
+// same order; a pattern matching nothing is reported as not existing in both modes.
+func VerifC12_Glob() {
+	h := vrtCmdHeader([]string{"1s:2s"}, wt.Sum, 0.5)
+	img := vrtConcreteImage(h)
+	sp := vrt.TempFile("srv/item1/a.wsp", img)
+	vrt.TempFile("srv/item1/b+c.wsp", img)
+	vrt.TempFile("srv/item2/a.wsp", img)
+	vrt.TempFile("srv/sub/item3/z.wsp", img)
+	base := filepath.Dir(filepath.Dir(sp))
+	u := vrtServe(base)
+	vrt.Reach("pre")
+	itemPats := []string{"item*", "item1", "sub/*", "*/item3", "nomatch*"}
+	filePats := []string{"item1/*.wsp", "item*/a.wsp", "item1/b+c.wsp", "*/*/z.wsp", "item1/*.nomatch"}
+	k := vrt.Choose("pattern", len(itemPats))
+	if vrt.Choose("kind", 2) == 0 {
+		li, lerr := globItems(base, itemPats[k])
+		ri, rerr := globItems(u, itemPats[k])
+		vrt.Assert((lerr == nil) == (rerr == nil), "C12.glob items: remote fails exactly when local does")
+		if lerr != nil {
+			vrt.Reach("items-missing")
+			vrt.Assert(os.IsNotExist(lerr), "C12.glob items: local reports an empty match as not existing")
+			vrt.Assert(os.IsNotExist(rerr), "C12.glob items: remote reports an empty match as not existing")
+			return
+		}
+		vrt.Reach("items-listed")
+		vrtSameStrings(li, ri, "C12.glob items")
+	} else {
+		lf, lerr := globFiles(base, filePats[k])
+		rf, rerr := globFiles(u, filePats[k])
+		vrt.Assert((lerr == nil) == (rerr == nil), "C12.glob files: remote fails exactly when local does")
+		if lerr != nil {
+			vrt.Reach("files-missing")
+			vrt.Assert(os.IsNotExist(lerr), "C12.glob files: local reports an empty match as not existing")
+			vrt.Assert(os.IsNotExist(rerr), "C12.glob files: remote reports an empty match as not existing")
+			return
+		}
+		vrt.Reach("files-listed")
+		vrtSameStrings(lf, rf, "C12.glob files")
 	}
 }
